@@ -31,7 +31,7 @@ def main():
                     if o["id"].startswith("V/") and o["id"] not in seen:
                         seen.add(o["id"])
                         obs.append(dict(o, id="traversal/" + o["id"], finding_key=o.get("finding_key", o["id"])))
-    if prop in ("C03", "C05", "C06", "C10"):
+    if prop in ("C03", "C05", "C06", "C10", "C11"):
         from tx import pipeline
         obs += pipeline.obligations()
     json.dump(dict(obligations=obs), sys.stdout, ensure_ascii=False)
